@@ -281,9 +281,13 @@ func (m *monC01) afterProvider(c *Chain, req *abci.RequestFinalizeBlock, res *ab
 			if vid == 0 {
 				want = m.confirmAt[cid]
 				w.Case("C12", "resolve:id0")
-			} else {
-				want = m.producedAt[vid] + 1
+			} else if at, ok := m.producedAt[vid]; ok {
+				want = at + 1
 				w.Case("C12", "resolve:id>0")
+			} else {
+				// the id of the update that is still being collected (not produced by an epoch yet): every block maps it to the next height
+				want = req.Height
+				w.Case("C12", "resolve:current-id")
 			}
 			if want != 0 && got != want {
 				w.Violation("C12", "provider-resolved-wrong-infraction-height", map[string]any{"consumer": cid, "vsc": vid, "got": got, "want": want})
